@@ -82,6 +82,19 @@ def run(rep, tier, rng):
             cases.append(C.read_case(-1 if rng.random() < 0.5 else code, bytes(b), shx if with_idx else None,
                                      OPS if with_idx else OPS_NOIDX))
             labels.append("bitflip")
+    # conformant files with degenerate part structures: no part, empty parts in first / middle / last position,
+    # one-vertex parts (valid input must not panic either)
+    for code in [t for t in F.ALL_TYPES if t not in refesri.POINT and t not in refesri.MULTIPOINT]:
+        for lens in ([], [0], [0, 0], [0, 3], [3, 0], [2, 0, 2], [1], [1, 0, 1], [0, 4, 0]):
+            model = {"type": code, "box": [0] * 8,
+                     "records": [{"num": 1, "shape": F.gen_rec(rng, code, "finite", lens=lens)},
+                                 {"num": 2, "shape": F.gen_rec(rng, code, "finite", lens=[2])}]}
+            shp, shx = refesri.encode_shp(model), refesri.encode_shx(model)
+            for req in (-1, code):
+                cases.append(C.read_case(req, shp, shx, OPS))
+                labels.append("degenerate parts")
+                cases.append(C.read_case(req, shp, None, OPS_NOIDX))
+                labels.append("degenerate parts")
     for _ in range(300 if tier == "thorough" else 60):
         tail = bytes(rng.getrandbits(8) for _ in range(rng.randint(0, 300)))
         data = struct.pack(">i", 9994) + tail
